@@ -227,8 +227,6 @@ def decode_both(l):
     cs, as_ = [], []
     while not dc.done():
         r = dc.framed().result()
-        tr = dc.framed().lst(lambda: None) if False else None
-        trd = dc.l[dc.i:]
         fr = dc.framed()
         tr = fr.lst(lambda: tuple(fr.lst(fr.n)))
         cs.append((r, tr, dc.framed().cworld()))
@@ -428,6 +426,3 @@ class Real:
             self.dump_world()
             self.pending = []
         return None
-
-    def depth_ok(self):
-        return True
